@@ -310,7 +310,7 @@ bool crashVerdict(const std::string &prop, const Plan &plan, const CrashInfo &ci
     v.detail = std::string(m.note) + ": " + v.detail;
     return true;
   }
-  if (prop == "C06" && ci.cls == "ubsan" && (ci.headline.find("outside the range of representable values") != std::string::npos) && m.opKind == OP_GLOBAL) {
+  if (prop == "C06" && m.dom06 && ci.cls == "ubsan" && (ci.headline.find("outside the range of representable values") != std::string::npos) && m.opKind == OP_GLOBAL) {
     v.prop = "C06";
     v.clause = "non-finite-coordinate";
     return true;
